@@ -2,8 +2,9 @@
 """tools/keep_mutant.py <worktree> <prop> <i> : after tools/confirm_mutant.sh succeeded, copies the change into /verif/seeded/<prop>-m<i>/"""
 import json, os, shutil, sys, subprocess
 wt, prop, i = sys.argv[1], sys.argv[2], sys.argv[3]
+name = sys.argv[4] if len(sys.argv) > 4 else f"{prop}-m{i}"
 V = os.path.dirname(os.path.dirname(os.path.abspath(__file__)))
-d = os.path.join(V, "seeded", f"{prop}-m{i}")
+d = os.path.join(V, "seeded", name)
 os.makedirs(d, exist_ok=True)
 shutil.copy(os.path.join(wt, "mutants", f"m{i}.diff"), os.path.join(d, "patch.diff"))
 shutil.copy(os.path.join(wt, "tests", f"demo_m{i}.rs"), os.path.join(d, "demo.rs"))
